@@ -50,12 +50,12 @@ class C06(InterpProp):
                 else:
                     mem = {st.memory}
                     res.features.add('restore-default')
-                exp = sorted(mem, key=lambda x: (sc.depth_for(x), x))
+                exp = sorted(mem, key=lambda x: (oracles.tree(sc).depth_for(x), x))
                 if m['entered'] != exp:
                     res.violations.append('step %d: history %s restored %s, expected %s' % (k, h, m['entered'], exp))
             for s in m['exited']:
                 if isinstance(sc.state_for(s), oracles.CompoundState):
-                    last_exit[s] = (cur & set(sc.children_for(s)), cur & set(sc.descendants_for(s)))
+                    last_exit[s] = (cur & set(sc.children_for(s)), cur & set(oracles.tree(sc).descendants_for(s)))
                 snap.discard(s)
             for s in m['entered']:
                 snap.add(s)
